@@ -69,4 +69,45 @@ def run(tier, seed):
                     if k != "base":
                         ck.eq("derived_follow_base_reload", dict(base, circuit_kind=k), bridge.eval_compiled(b[k], x, "sum-product"), ya[k], rtol=1e-12, atol=0.0, nontrivial=bool(learn))
             ck.guarded("reload", base, go)
+    _frozen_section(ck, seed)
     return ck.res
+
+
+def _frozen_section(ck, seed):
+    """circuits with FROZEN random tensors (learnable=False, random initialiser) next to learnable ones: the fresh instance
+    and its derived circuits are evaluated once BEFORE load_state_dict (a value remembered from that evaluation would
+    survive the load), then must reproduce the saved circuit"""
+    from cirkit.symbolic.circuit import Circuit
+    from cirkit.symbolic.initializers import NormalInitializer
+    from cirkit.symbolic.layers import EmbeddingLayer, HadamardLayer, SumLayer
+    from cirkit.symbolic.parameters import Parameter, TensorParameter
+    from cirkit.utils.scope import Scope
+
+    def frozen(shape):
+        return Parameter.from_input(TensorParameter(*shape, initializer=NormalInitializer(), learnable=False))
+    for nvars, K, C in ((2, 2, 3), (3, 3, 2)):
+        ins = [EmbeddingLayer(Scope([3 * i + 1]), K, num_states=C, weight_factory=frozen if i % 2 == 0 else None) for i in range(nvars)]
+        h = HadamardLayer(K, arity=nvars)
+        s = SumLayer(K, 2, arity=1)
+        sc = Circuit(ins + [h, s], {h: ins, s: [h]}, [s])
+        for fold, opt in FLAGS:
+            base = {"section": "frozen", "nvars": nvars, "units": K, "fold": fold, "optimize": opt}
+
+            def go():
+                def build():
+                    ctx = PipelineContext(backend="torch", semiring="sum-product", fold=fold, optimize=opt)
+                    with ctx:
+                        return {"base": ctx.compile(sc), "integrate": ctx.compile(SF.integrate(sc))}
+                torch.manual_seed(77 + seed)
+                a = build()
+                torch.manual_seed(78 + seed)
+                b = build()
+                x = gen.gen_inputs(sc, 4, 5)
+                ya = {k: bridge.eval_compiled(t, x, "sum-product") for k, t in a.items()}
+                yb0 = {k: bridge.eval_compiled(t, x, "sum-product") for k, t in b.items()}  # evaluated before the load
+                ck.res.count("fresh frozen instance differs before loading", int(not np.allclose(ya["base"], yb0["base"])))
+                b["base"].load_state_dict(_roundtrip(a["base"].state_dict()), strict=True)
+                for k in a:
+                    ck.eq("same_outputs_after_reload_of_evaluated_instance", dict(base, circuit_kind=k),
+                          bridge.eval_compiled(b[k], x, "sum-product"), ya[k], rtol=1e-12, atol=0.0, nontrivial=True)
+            ck.guarded("reload_frozen", base, go)
